@@ -39,6 +39,15 @@ Proof.
   intros E H. apply (seqb_spec F) in H. rewrite H in E. discriminate E.
 Qed.
 
+Lemma asrc_mk (s : nat) (l : option nat) (d : nat) (w : F) : asrc ((s, l, d, w) : arc F) = s.
+Proof. reflexivity. Qed.
+Lemma albl_mk (s : nat) (l : option nat) (d : nat) (w : F) : albl ((s, l, d, w) : arc F) = l.
+Proof. reflexivity. Qed.
+Lemma adst_mk (s : nat) (l : option nat) (d : nat) (w : F) : adst ((s, l, d, w) : arc F) = d.
+Proof. reflexivity. Qed.
+Lemma awt_mk (s : nat) (l : option nat) (d : nat) (w : F) : awt ((s, l, d, w) : arc F) = w.
+Proof. reflexivity. Qed.
+
 (* ------------------------------------------------------------------ *)
 (* PART A : weight pushing                                              *)
 
@@ -98,7 +107,7 @@ Proof.
   - match goal with |- ?a + ?b = ?c * (?d + ?e) => transitivity (c * d + c * e); [|ring] end.
     rewrite <- bsum_mul_l.
     f_equal. apply bsum_ext; intros ar _.
-    unfold asrc at 2, awt at 1; cbn [fst snd].
+    rewrite asrc_mk, awt_mk.
     destruct (Nat.eqb (asrc ar) i) eqn:E.
     + apply Nat.eqb_eq in E. rewrite E. rewrite (seqb_false _ _ Hi). ring.
     + destruct (seqb (V (asrc ar)) 0); ring.
@@ -113,7 +122,7 @@ Proof.
   - cbn [pw]. rewrite (wget_push_final V m q Hq). apply finv_cancel, Hq.
   - cbn [pw]. rewrite bsum_push_arcs, <- bsum_mul_l.
     apply bsum_ext; intros ar _.
-    unfold asrc at 2, albl at 1, adst at 2, awt at 1; cbn [fst snd].
+    rewrite asrc_mk, albl_mk, adst_mk, awt_mk.
     destruct (Nat.eqb (asrc ar) q) eqn:E; cbn [andb].
     + apply Nat.eqb_eq in E. rewrite E. rewrite (seqb_false _ _ Hq).
       destruct (lbl_eqb (albl ar) a); [|ring].
